@@ -222,8 +222,9 @@ Proof. exact example_guard. Qed.
           required positional (true of the real core context);
       outside this property
        7. core options interleaved with the task's arguments: C18
-          ([C18_prefix_placement_equiv_partial] composes a core prefix with the
-          simple fragment; F-C18b/c are the known exceptions). *)
+          ([C18_prefix_placement_equiv_wide_partial] composes a core prefix with
+          this very fragment at every admissible placement; F-C18b/c are the
+          known exceptions). *)
 
 (** F-C01a: a list-typed declared default ([x=['p']]) is replaced by [] when the
     flag is not given ("declared defaults for everything not mentioned"). *)
